@@ -56,7 +56,7 @@ func c13Lexemes(ctx *Ctx, kind int) []lexeme {
 				lx.text = pick("lıke", "LıKE", "iſ", "falſe", "Iſ", "lıKe", "Falſe") // (not at the start: in expressions an identifier starts with a Latin-1 letter)
 			}
 		case c == 2:
-			lx = lexeme{pick("0", "7", "42", "007", "1234567890"), tokenizers.Integer, "integer"}
+			lx = lexeme{pick("0", "7", "42", "007", "1234567890", "9223372036854775807", "9223372036854775808", "12345678901234567890", strings.Repeat("1234567890", 4), strings.Repeat("9", 70)), tokenizers.Integer, "integer"} // a digit run of any length is an integer lexeme
 			if kind == 0 && r.Intn(3) == 0 {
 				lx.text = "-" + lx.text // a sign is part of the number generically
 			}
@@ -173,7 +173,7 @@ func canFollow(kind int, a, b lexeme) bool {
 func c13Boundary(kind int) []lexeme {
 	w, sy, in, fl, q, cm := tokenizers.Word, tokenizers.Symbol, tokenizers.Integer, tokenizers.Float, tokenizers.Quoted, tokenizers.Comment
 	out := []lexeme{{"e1", w, "identifier"}, {"E2x", w, "identifier"}, {"e", w, "identifier"}, {"x", w, "identifier"}, {"rec", w, "identifier"}, {"é", w, "identifier"},
-		{"1", in, "integer"}, {"12", in, "integer"}, {"1.5", fl, "decimal"}, {"3.", fl, "decimal"}, {".5", fl, "decimal"},
+		{"1", in, "integer"}, {"12", in, "integer"}, {"12345678901234567890123", in, "integer"}, {"1.5", fl, "decimal"}, {"3.", fl, "decimal"}, {".5", fl, "decimal"},
 		{"+", sy, "symbol1"}, {"*", sy, "symbol1"}, {"(", sy, "symbol1"}, {")", sy, "symbol1"}, {"<=", sy, "symbol2"}, {"<", sy, "symbol1"}, {"=", sy, "symbol1"}, {">", sy, "symbol1"},
 		{"'s'", q, "quoted"}, {" ", tokenizers.Whitespace, "whitespace"}}
 	if kind == 1 {
@@ -354,7 +354,7 @@ func probeReconfigured() string {
 		func() tokenizers.ITokenizer { return generic.NewGenericTokenizer() },
 		func() tokenizers.ITokenizer { return ctok.NewExpressionTokenizer() },
 	} {
-		for _, sym := range []string{"=:=", "===", "<->", "|->>"} {
+		for _, sym := range []string{"=:=", "===", "<->", "|->>", "->", "--", "-=", "-->", "+-", "/=", ".."} {
 			for _, text := range []string{"a " + sym, "a " + sym[:2], sym[:2], "a" + sym[:2] + " ", sym[:len(sym)-1], sym + sym[:2], "(" + sym[:2] + ")", sym[:1], "x " + sym[:2] + "y"} {
 				t := mk()
 				var st any
@@ -377,6 +377,14 @@ func probeReconfigured() string {
 				if sb.String() != text {
 					return fmt.Sprintf("with the symbol %q registered, %q comes back as %s (the token values do not spell the text)", sym, text, show(toks))
 				}
+				// the registered symbol itself, between two identifiers, is one token
+				whole := false
+				for _, k := range mkWithSym(mk, sym).TokenizeBuffer("a " + sym + " b") {
+					whole = whole || (k.Value() == sym && k.Type() == tokenizers.Symbol)
+				}
+				if !whole {
+					return fmt.Sprintf("with the symbol %q registered, \"a %s b\" does not contain it as one token", sym, sym)
+				}
 				for _, k := range toks {
 					if k.Type() == tokenizers.Symbol && len([]rune(k.Value())) > 1 && k.Value() != sym && !strings.Contains("<= >= <> != << >> == ", k.Value()+" ") {
 						return fmt.Sprintf("with the symbol %q registered, %q contains the symbol token %q, which was never registered", sym, text, k.Value())
@@ -386,6 +394,21 @@ func probeReconfigured() string {
 		}
 	}
 	return ""
+}
+
+func mkWithSym(mk func() tokenizers.ITokenizer, sym string) tokenizers.ITokenizer {
+	t := mk()
+	var st any
+	switch tt := t.(type) {
+	case *generic.GenericTokenizer:
+		st = tt.SymbolState()
+	case *ctok.ExpressionTokenizer:
+		st = tt.SymbolState()
+	}
+	if a, ok := st.(interface{ Add(string, int) }); ok {
+		a.Add(sym, tokenizers.Symbol)
+	}
+	return t
 }
 
 func runC13(in sx.SX) (sx.SX, string) {
